@@ -138,7 +138,7 @@ def check_init(case):
     x0 = x0.reshape(-1)
     code = float(code.reshape(-1)[0])
     if not np.all(np.isfinite(x0)) or not math.isfinite(code):
-        raise Violation("initialize returned NaN/inf: x0=%s code=%s" % (x0.tolist(), code), g_b=g_b.tolist(), B_b=B_b.tolist(), **case)
+        raise Violation("initialize returned NaN/inf: x0=%s code=%s" % (x0.tolist(), code), **dict(case, g_b=g_b.tolist(), B_b=B_b.tolist()))
     if code != 0:
         return
     if case["kind"] in ("consistent", "gross_g", "parallel"):
@@ -151,7 +151,7 @@ def check_init(case):
             raise Violation("initialize returned a non-zero bias %s" % x0[3:].tolist(), **case)
         # conditioning: angle between gravity and field >= 10 deg by the gate
         L.close(ref.mrp_to_R(r0), C_nb, "initialize: attitude from consistent gravity/field vs the attitude that produced them",
-                atol=1e-9, rtol=0, g_b=g_b.tolist(), B_b=B_b.tolist(), **case)
+                atol=1e-9, rtol=0, **dict(case, g_b=g_b.tolist(), B_b=B_b.tolist()))
 
 
 def init_nontrivial(case):
